@@ -738,6 +738,8 @@ class GateEvent:
 
     def wait(self, timeout=None):
         self.timeouts.append(timeout)
+        if timeout is not None and timeout > threading.TIMEOUT_MAX:
+            raise OverflowError('timeout value is too large')      # what threading.Event.wait does with inf
         if self.flag:
             return True
         self.arrived.release()
@@ -797,6 +799,7 @@ def run_thread(case):
         for ev in case['evs']:
             r = {}
             k = ev['ev']
+            restore = None
             if k == 'tick':
                 if parked and not stopped[0]:
                     op = ev['op']
@@ -804,12 +807,23 @@ def run_thread(case):
                         b.channel.next = ('resp', make_response(op))
                     elif op.get('how') in ('garbage', 'bad_update'):
                         b.channel.next = ('resp', garbage_response(op.get('how')))
+                    elif op.get('how') == 'metadata':
+                        # a failure BEFORE the send: grpc.metadata() raises while the arguments of stub.poll are evaluated
+                        real_md = b.deep.grpc.metadata
+
+                        def failing_md(*a, **k):
+                            raise RpcFailure('no credentials')
+                        b.deep.grpc.metadata = failing_md
+                        restore = lambda: setattr(b.deep.grpc, 'metadata', real_md)   # noqa: E731
+                        b.channel.next = ('resp', make_response({'op': 'poll', 'nc': True, 'rt': 0, 'tps': []}))
                     elif op.get('base'):
                         b.channel.next = ('raise', BASE_HOW[op.get('how', 'interrupt')]())
                     else:
                         b.channel.next = ('raise', poll_failure(op.get('how')))
                     ge.go.release()
                     parked = settle()
+                    if restore is not None:
+                        restore()
             elif k == 'flush':
                 n = 0
                 while b.exec.waiting() and n < 100:
